@@ -180,8 +180,27 @@ def progress(ctx):
     lp = loops[0]
     t = lp.test
     conj = t.values if isinstance(t, ast.BoolOp) and isinstance(t.op, ast.And) else [t]
-    ctx.check(any(unparse(c) == "n_bytes > 0" for c in conj) and any(isinstance(c, ast.Call) and call_name(c) == "self._fill_buffer" for c in conj), lp,
-              "loop runs while bytes are wanted and the buffer could be refilled")
+    def refill_conj(c):
+        if isinstance(c, ast.Call) and call_name(c) == "self._fill_buffer":
+            return "plain"
+        # `self._fill_buffer() or self._size < 0`: goes on while the size is unknown - terminates only if every EOF answer
+        # of _fill_buffer has recorded a non-negative size first
+        if isinstance(c, ast.BoolOp) and isinstance(c.op, ast.Or) and len(c.values) == 2 and isinstance(c.values[0], ast.Call) and call_name(c.values[0]) == "self._fill_buffer" \
+                and unparse(c.values[1]) in ("self._size < 0", "self._size == -1"):
+            return "size"
+        return None
+    forms = [refill_conj(c) for c in conj]
+    ctx.check(any(unparse(c) == "n_bytes > 0" for c in conj) and any(forms), lp, "loop runs while bytes are wanted and the buffer could be refilled",
+              "_read_block's loop does not run exactly while bytes are wanted and a refill succeeds")
+    if "size" in forms:
+        fbf = ZF(ctx, "_fill_buffer")
+        gfb = cfg_of(fbf)
+        plain = [a for a in nodes_of_type(fbf, ast.Assign) if "self._size" in stores_to(a) and dotted(a.value) == "self._pos"]
+        eofm = [a for a in nodes_of_type(fbf, ast.Assign) if "self._mode" in stores_to(a) and dotted(a.value) == "_MODE_READ_EOF"]
+        ok_ = bool(plain) and bool(eofm) and all(gfb.every_path_from(gfb.nodes_of(m_), gfb.nodes_of_all(plain), None, skip_exc=True) or gfb.every_path_to(gfb.nodes_of(m_), gfb.nodes_of_all(plain), skip_exc=True) for m_ in eofm) \
+            and not [a for a in nodes_of_type(fbf, ast.Assign) if "self._size" in stores_to(a) and a not in plain]
+        ctx.check(ok_, lp, "the loop also goes on while the size is unknown, and every end-of-file answer records the size unconditionally (so it stops)",
+                  "_read_block keeps refilling while `self._size < 0`, but _fill_buffer can answer EOF leaving the size unknown: reading a stream followed by extra bytes never ends")
     dec_ = [a for a in lp.body if isinstance(a, ast.AugAssign) and dotted(a.target) == "n_bytes" and isinstance(a.op, ast.Sub)]
     ok = len(dec_) == 1 and unparse(dec_[0].value) == "len(data)" and _back_edge_unconditional(lp, dec_[0])
     ctx.check(ok, dec_[0] if dec_ else lp, "every iteration strictly decreases n_bytes by len(data) (data is a non-empty slice of a refilled buffer)",
@@ -277,7 +296,13 @@ def eof_not_data(ctx):
     md = [a for a in h.body if isinstance(a, ast.Assign) and "self._mode" in stores_to(a)]
     ctx.check(bool(md) and dotted(md[0].value) == "_MODE_READ_EOF", md[0] if md else h, "end of file sets the EOF mode")
     sz = [a for a in h.body if isinstance(a, ast.Assign) and "self._size" in stores_to(a)]
-    ctx.check(bool(sz) and dotted(sz[0].value) == "self._pos", sz[0] if sz else h, "and records the stream size = current position")
+    def size_ok(v):
+        # the position reached, or "unknown" (-1: seek-from-end re-scans) - possibly chosen by a conditional expression
+        if dotted(v) == "self._pos" or const_value(v) == -1:
+            return True
+        return isinstance(v, ast.IfExp) and size_ok(v.body) and size_ok(v.orelse)
+    ctx.check(bool(sz) and size_ok(sz[0].value) and not const_value(sz[0].value) == -1, sz[0] if sz else h, "and records the stream size = current position (or leaves it unknown)",
+              "at end of file the stream size is recorded as %s, not the position reached" % (unparse(sz[0].value) if sz else "nothing"))
     ctx.check(isinstance(h.body[-1], ast.Return) and is_const(h.body[-1].value, False), h, "and reports 'no more data' (never fabricates data)")
     g0 = cfg_of(f)
     mode_sets = [a for a in nodes_of_type(f, ast.Assign) if "self._mode" in stores_to(a) and dotted(a.value) == "_MODE_READ_EOF"]
